@@ -6,6 +6,44 @@ def run(chk):
     chk.explanation = (
         "Decides one hazard class, not termination in general: R05a — a signed run-time integer (argument, Value::Integer payload, path index) becomes an "
         "unsigned count/index/capacity only behind a dominating order test on that value (`x < 0`, range contains, TryFrom, clamp) or is bounded right "
-        "after the cast. Operands that are lengths cast from unsigned types are discharged. Undecided: loop termination, output growth from legitimate "
+        "after the cast. Operands that are lengths cast from unsigned types are discharged. R05b - no counted loop whose trip count is the *value* of a run-time "
+        "integer: a `Range` that is iterated (`into_iter`/`Iterator::next`) in stdlib code must not take its end from `try_integer`, `unsigned_abs`/`abs` or a signed "
+        "integer parameter unless a `min`/`clamp` bounds it; such a loop runs for |n| iterations (n up to 2^63) on an input of a few bytes. Undecided: loop termination in general, output growth from legitimate "
         "large counts, regex/decompression cost.")
     sr.rule_guarded_casts(chk, "R05a")
+    rule_r05b(chk)
+
+
+VALUE_INT = ("try_integer", "unsigned_abs", "abs", "wrapping_abs", "saturating_abs")
+BOUNDERS = ("::min", "::clamp")
+
+
+def rule_r05b(chk):
+    from facts import flow_sources, uses_of, op_local
+    facts = chk.facts
+    rid = "R05b"
+    chk.rule(rid, "iterated integer ranges in stdlib code are not sized by the value of a run-time integer (unless bounded by min/clamp)", floor=1)
+    for n in sorted(facts.names(lambda n: n.startswith("stdlib::") or n.startswith("<stdlib::"))):
+        b = facts.body(n)
+        k = 0
+        for bi, si, st in b.iter_stmts():
+            rv = st["rv"]
+            if not (rv["k"] == "agg" and "ops::Range" in str(rv.get("adt")) and rv["ops"]):
+                continue
+            us = uses_of(b, st["d"]["l"])
+            if not any(u[0] == "call" and ("into_iter" in (b.callee(u[3]) or "") or "Iterator" in (b.callee(u[3]) or "")) for u in us):
+                continue  # a slicing range, not a loop
+            l = op_local(rv["ops"][-1])
+            srcs = flow_sources(b, l) if l is not None else set()
+            calls = [x[2] for x in srcs if x[0] == "call"]
+            tails = [c.rsplit("::", 1)[-1] for c in calls]
+            by_value = sorted({t for t in tails if t in VALUE_INT} | {"parameter %s: %s" % (b.local_name(x[1]) or x[1], b.local_ty(x[1])) for x in srcs if x[0] == "arg" and b.local_ty(x[1]) in ("i64", "isize", "i32")})
+            bounded = any(c.endswith(bd) for c in calls for bd in BOUNDERS)
+            ok = not by_value or bounded
+            d = {"function": n, "line": st.get("ln"), "end_derives_from": tails[:6], "value_sources": by_value, "bounded_by_min_or_clamp": bounded}
+            chk.instance(rid, d, ok=ok)
+            if not ok:
+                chk.violation(rid, b.file, n, "loop count taken from the value of a run-time integer (%s) #%d" % (", ".join(by_value), k),
+                              "%s:%s iterates a range whose end derives from %s with no min/clamp bound: the call runs for as many iterations as the integer's value "
+                              "(up to 2^63), not in time proportional to the size of its inputs" % (b.file, st.get("ln"), ", ".join(by_value)), detail=d)
+                k += 1
